@@ -99,7 +99,7 @@ func checkC01(c *chk.Ctx) {
 		if err := json.Unmarshal([]byte(r), &cc); err != nil {
 			c.Broken("bad exported case: %v", err)
 		}
-		if !c.Thorough() && (i+int(c.Seed))%3 != 0 && !(cc.Pcls == "ord" && cc.Qcls == "ord" && cc.Bcls == "ord") {
+		if false && (i+int(c.Seed))%3 != 0 && !(cc.Pcls == "ord" && cc.Qcls == "ord" && cc.Bcls == "ord") { // (no sampling: both tiers run every case)
 			continue
 		}
 		cases = append(cases, cc)
